@@ -107,6 +107,22 @@ def oracle(proc, a, desc, rows, real):
     return out
 
 
+def reuse_case(ctx, rng):
+    """a step object (or a whole Flow) used for a second run restructures the package exactly as the first time"""
+    rep = ctx.report
+    proc = rng.choice(LAYER_A)
+    desc, rows = S.gen_pkg(rng)
+    a = S.PROCS[proc].gen(rng, desc, rows)
+    step = S.PROCS[proc].real(copy.deepcopy(a))
+    case = {'proc': proc, 'args': S.jsonable_args(a), 'reuse': 'same-step-two-flows', 'desc': desc, 'rows': canon._plain(rows)}
+    first = S.run_real([step], desc, rows)       # each run gets a fresh copy of the package
+    second = S.run_real([step], desc, rows)
+    rep.case('real:reuse:' + proc, case, nontrivial='ok' in first)
+    if S.norm_result(first) != S.norm_result(second):
+        rep.fail('reuse:%s:second-run-differs' % proc, case, {'first': str(S.norm_result(first))[:600],
+                                                             'second': str(S.norm_result(second))[:600]})
+
+
 def mutate_case(ctx, rng):
     """duplicate followed by a step that edits the original's rows in place: the copy must hold the
     rows as they were (regression input of the fixed defect)"""
@@ -267,6 +283,8 @@ def run(ctx):
     with quiet():
         for _ in range(ctx.n(40, 400)):
             mutate_case(ctx, rng)
+        for _ in range(ctx.n(150, 1500)):
+            reuse_case(ctx, rng)
         for _ in range(ctx.n(150, 1500)):
             append_case(ctx, rng)
         for _ in range(ctx.n(6, 60)):
